@@ -118,8 +118,10 @@ class Ctx:
                     b.path in as_value or len(b.blocks) > 400:
                 continue
             ret = b.j.get('ret_ty', '')
-            if ret.startswith('base::planner::Path<') and self._walks(b):
-                continue                                            # path extractor (walks the links itself or through a private helper)
+            if ret.startswith('base::planner::Path<') and self._walks(b) and b.path in owner:
+                continue                                            # path extractor of a planner (walks the links itself or through a helper);
+                                                                    # a free helper that returns the path is analysed inside the planner
+                                                                    # method that hands it the tree (it is inlined there)
             ptys = [b.local_ty(i) for i in range(1, b.arg_count + 1)]
             if ret == 'f64' and any(nt in t for nt in node_tys for t in ptys):
                 continue                                            # cost function
@@ -149,7 +151,8 @@ class Ctx:
             return False
         for pth in self.local_callees(b):
             cb = b.crate.body(pth)
-            if cb is not None and cb is not b and cb.kind in ('Fn', 'AssocFn') and not cb.j.get('ret_ty', '').startswith('base::planner::Path<') and \
+            if cb is not None and cb is not b and cb.kind in ('Fn', 'AssocFn') and \
+                    (not cb.j.get('ret_ty', '').startswith('base::planner::Path<') or cb.j.get('impl_adt') is None) and \
                     self._walks(cb, depth + 1):
                 return True
         return False
